@@ -3,7 +3,7 @@ from proto_engine import *
 import kv_engine
 
 MODULE = "Feox.Props.C05"
-THEOREMS = ['Feox.C05.partition_after_any_history', 'Feox.C05.apply_part', 'Feox.C05.release_valid', 'Feox.C05.partition', 'Feox.C05.extents_disjoint_in_bounds', 'Feox.C05.no_cross_damage', 'Feox.C05.empty_is_fresh', 'Feox.C05.no_leak', 'Feox.Proto.TiledBy.partition', 'Feox.Proto.TiledBy.recs']
+THEOREMS = ['Feox.C05.accept_part', 'Feox.C05.accepted_trace_part', 'Feox.C05.partition_after_any_history', 'Feox.C05.apply_part', 'Feox.C05.release_valid', 'Feox.C05.partition', 'Feox.C05.extents_disjoint_in_bounds', 'Feox.C05.no_cross_damage', 'Feox.C05.empty_is_fresh', 'Feox.C05.no_leak', 'Feox.Proto.TiledBy.partition', 'Feox.Proto.TiledBy.recs']
 
 
 def run(ctx):
@@ -13,4 +13,4 @@ def run(ctx):
         "the abstract disk (Feox.Proto.Disk) is related to bytes by the Lean reader Feox.Fmt.recoverImage, itself compared with the real recovery on every crash image of this run",
         "faults are injected at the I/O hook (synchronous path; io_uring disabled), not in the kernel",
         "the standing invariants (ownership partition, counters, MarkOK after every acknowledged flush and reopen) are also evaluated by the kv harness on every store configuration and format version",
-    ], lambda op: op.startswith("fmt recover"), pre_finish=lambda c, cov: kv_engine.inv_stage(c, cov))
+    ], lambda op: op.startswith("fmt recover") or op.startswith("space "), pre_finish=lambda c, cov: kv_engine.inv_stage(c, cov))
